@@ -43,7 +43,9 @@ class Message:
         self._check_args()
         args = self.args[:]
 
-        if args and ' ' in args[-1] and not args[-1].startswith(':'):
+        # (an empty last argument needs the marker too: without it nothing is
+        # left of it on the wire)
+        if args and (' ' in args[-1] or not args[-1]) and not args[-1].startswith(':'):
             args[-1] = f':{args[-1]}'
 
         return '{prefix}{command} {args}\r\n'.format(
